@@ -118,7 +118,102 @@ theorem sharp_seed_independent {G X O : Type} (g0 : G) (eval : X → G → O × 
     congr 1
     exact ih _ _
 
+/-! ### C. cache and generator together; copies -/
+
+/-- running a history uses the step function only (the initial state is the explicit argument) -/
+theorem run_step_congr {S X O : Type} (m m' : Machine S X O) (hstep : m.step = m'.step) (s : S) (h : List X) :
+    m.run s h = m'.run s h := by
+  induction h generalizing s with
+  | nil => rfl
+  | cons x xs ih => simp only [Machine.run, hstep, ih]
+
+/-- states an object can be in: cache absent or the one the configuration determines -/
+def CacheInv {C : Type} (build : C) (s : Option C) : Prop := s = none ∨ s = some build
+
+/-- one step from a state satisfying the cache invariant: the output and the new generator state are those of
+    `eval build`, and the invariant is kept — whatever the cache part was -/
+theorem full_step {C G X O : Type} (build : C) (g0 : G) (eval : C → X → G → O × G)
+    (s : Option C) (g : G) (x : X) (hs : CacheInv build s) :
+    ((fullLikelihood build g0 eval).step (s, g) x) = ((some build, (eval build x g).2), (eval build x g).1) := by
+  rcases hs with rfl | rfl <;> rfl
+
+/-- **with scatter, reproducible from the seed, whatever the object has evaluated before**: from any state whose
+    cache part satisfies the invariant, the outputs of a history and the generator state afterwards are those of
+    the cache-free machine `seeded g0 eval'` run from generator state `g` with `eval' x g = eval build x g` — they depend on the generator state
+    at the start of the history and on nothing else. -/
+theorem full_run_eq_seeded {C G X O : Type} (build : C) (g0 : G) (eval : C → X → G → O × G)
+    (h : List X) (s : Option C) (g : G) (hs : CacheInv build s) :
+    ((fullLikelihood build g0 eval).run (s, g) h).2 = ((seeded g0 (fun x g => eval build x g)).run g h).2 ∧
+    ((fullLikelihood build g0 eval).run (s, g) h).1.2 = ((seeded g0 (fun x g => eval build x g)).run g h).1 ∧
+    CacheInv build ((fullLikelihood build g0 eval).run (s, g) h).1.1 := by
+  induction h generalizing s g with
+  | nil => exact ⟨rfl, rfl, hs⟩
+  | cons x xs ih =>
+    have hstep := full_step build g0 eval s g x hs
+    obtain ⟨h1, h2, h3⟩ := ih (some build) (eval build x g).2 (Or.inr rfl)
+    simp only [Machine.run, hstep]
+    refine ⟨?_, ?_, h3⟩
+    · simp only [seeded] at h1 ⊢
+      rw [h1]
+    · simp only [seeded] at h2 ⊢
+      exact h2
+
+/-- the cache part of every reachable state satisfies the invariant -/
+theorem full_after_inv {C G X O : Type} (build : C) (g0 : G) (eval : C → X → G → O × G) (h : List X) :
+    CacheInv build ((fullLikelihood build g0 eval).after h).1 :=
+  (full_run_eq_seeded build g0 eval h none g0 (Or.inl rfl)).2.2
+
+/-- **a deep copy or pickle round trip returns identical values**: take the object after ANY history `h1`
+    (original), and a copy whose cache part is either kept or dropped (`copyCache ∈ {cache of the original, none}`);
+    re-seed the generator to `g` and evaluate any history `h2` on each: same outputs, and they are also the outputs
+    of a freshly constructed object under the same seed. -/
+theorem copy_identical {C G X O : Type} (build : C) (g0 : G) (eval : C → X → G → O × G)
+    (h1 h2 : List X) (g : G) (copyCache : Option C)
+    (hcopy : copyCache = ((fullLikelihood build g0 eval).after h1).1 ∨ copyCache = none) :
+    ((fullLikelihood build g0 eval).run (copyCache, g) h2).2
+      = ((fullLikelihood build g0 eval).run (((fullLikelihood build g0 eval).after h1).1, g) h2).2 ∧
+    ((fullLikelihood build g0 eval).run (copyCache, g) h2).2
+      = ((fullLikelihood build g eval).run (fullLikelihood build g eval).init h2).2 := by
+  have hinv := full_after_inv build g0 eval h1
+  have hc : CacheInv build copyCache := by
+    rcases hcopy with rfl | rfl
+    · exact hinv
+    · exact Or.inl rfl
+  have a := (full_run_eq_seeded build g0 eval h2 copyCache g hc).1
+  have b := (full_run_eq_seeded build g0 eval h2 _ g hinv).1
+  have c := (full_run_eq_seeded build g eval h2 none g (Or.inl rfl)).1
+  have d : (seeded g (fun x g => eval build x g)).run g h2 = (seeded g0 (fun x g => eval build x g)).run g h2 :=
+    run_step_congr (seeded g (fun x g => eval build x g)) (seeded g0 (fun x g => eval build x g)) rfl g h2
+  rw [d] at c
+  exact ⟨a.trans b.symm, a.trans c.symm⟩
+
+/-- **sharp hyper-parameters: any history, any generator state, any copy — the same value at the same point**:
+    if `eval build x` does not read the generator (C04 `sharp_deterministic`), then from every reachable state
+    (and every copy of it, with or without the cache) the value at `x` is `out x`. -/
+theorem full_sharp_history_independent {C G X O : Type} (build : C) (g0 : G) (eval : C → X → G → O × G)
+    (out : X → O) (hsharp : ∀ x g, (eval build x g).1 = out x)
+    (h1 h2 : List X) (g : G) (copyCache : Option C)
+    (hcopy : copyCache = ((fullLikelihood build g0 eval).after h1).1 ∨ copyCache = none) :
+    ((fullLikelihood build g0 eval).run (copyCache, g) h2).2 = h2.map out := by
+  have hinv := full_after_inv build g0 eval h1
+  have hc : CacheInv build copyCache := by
+    rcases hcopy with rfl | rfl
+    · exact hinv
+    · exact Or.inl rfl
+  rw [(full_run_eq_seeded build g0 eval h2 copyCache g hc).1]
+  clear hc hcopy hinv
+  induction h2 generalizing g with
+  | nil => rfl
+  | cons x xs ih =>
+    have := ih (eval build x g).2
+    simp only [Machine.run, seeded, List.map_cons] at this ⊢
+    rw [this, hsharp]
+
 /-! ### non-vacuity -/
+example : ((fullLikelihood (3 : Nat) (10 : Nat) (fun c x g => (c + x + g, g + 1))).run (none, 10) [1, 2, 1]).2
+    = [14, 16, 16] := by decide
+example : ((fullLikelihood (3 : Nat) (10 : Nat) (fun c x g => (c + x + g, g + 1))).run (some 3, 10) [1, 2, 1]).2
+    = [14, 16, 16] := by decide
 example : ((cachedLikelihood (3 : Nat) (fun c x => c + x)).run none [1, 2, 1]).2 = [4, 5, 4] := by decide
 
 end HierArc.C08
